@@ -223,6 +223,7 @@ struct Scenario
 	Site site;
 	std::vector<std::unique_ptr<Client>> clients;
 	std::int64_t stop_at = -1; // handler-execution count at which stop() is called (-1: never)
+	bool abandon_large = false; // --mode abandon: the first client leaves without reading a response larger than the initial window
 	std::string desc;
 };
 
@@ -732,7 +733,7 @@ struct World
 		}
 		// ---- successive clients: everybody must have been accepted, unless the server is (by its
 		// design) stuck on a stalled request or was stopped
-		bool wedged = false;
+		bool wedged = false, parked_by_abandon = false;
 		for (auto& cp : sc.clients) if (cp->connected && cp->end_state == E_STALLED) wedged = true;
 		for (auto& cp : sc.clients)
 		{
@@ -748,7 +749,13 @@ struct World
 				// which earlier connection ended how?
 				std::string prev = "first client";
 				for (auto& pp : sc.clients) if (pp->id == c.id - 1) prev = fmt("previous connection ended by %s", pp->policy == P_NORMAL ? (pp->end_state == E_OPEN ? "client close" : pp->close_why) : pp->policy == P_EOF_PARTIAL ? "client EOF mid-request" : "client abandoning");
-				viol("next-client-not-accepted", fmt("client %d: connect still unanswered at quiescence (%s)", c.id, prev.c_str()));
+				// once the server is parked by the known abandon defect no later client can be judged
+				if (parked_by_abandon) { R().count("clients_not_judged_after_stall_or_stop"); continue; }
+				bool prev_left_large = false;
+				for (auto& pp : sc.clients) if (pp->id == c.id - 1 && pp->policy == P_ABANDON && sc.abandon_large) prev_left_large = true;
+				if (prev_left_large) parked_by_abandon = true;
+				viol(prev_left_large ? "next-client-not-accepted:previous-client-left-without-reading-large-response" : "next-client-not-accepted"
+					, fmt("client %d: connect still unanswered at quiescence (%s)", c.id, prev.c_str()));
 			}
 		}
 		if (wedged) R().count("cases_with_server_parked_on_stalled_request");
@@ -941,6 +948,7 @@ void run_case(Args const& a, std::uint64_t c)
 		{
 			// a client that sends one request for a large response and goes away without reading
 			c->policy = P_ABANDON; c->reqs.clear(); c->tail.clear();
+			sc.abandon_large = true;
 			sc.site.pad2 = 3 * sc.mtu + int(g.range(0, 4000));
 			c->reqs.push_back(make_req(K_HANDLER, sc.site, "GET", "/dir/h2", "big", "", false, ""));
 			finish_script(*c); apply_model(*c, sc.keepalive); gen_cuts(g, *c);
